@@ -11,6 +11,18 @@ CLAIMED = {
     "C10": ("DESIGN.md §2 C10",
             "Bounded symbolic model checking: volume()/boundary volume of every primitive with all shape parameters and parameter rows symbolic is proved equal to the analytic measure (z3, unsat) on every path; composition algebra and density row counts likewise; within the stated bounds this covers all real inputs, which sampling cannot.",
             "floats as reals; kernel table symtorch/ops.py; pi as a bounded symbol; shapes of positive measure; k<=2 parameter rows; shapely/trimesh excluded"),
+    "C05": ("DESIGN.md §2 C05",
+            "Bounded symbolic model checking: _contains of every catalogue shape is executed on symbolic query points, shape parameters and parameter rows and proved (z3) equivalent to an independent set-theoretic oracle (exactly for primitives, outside a tolerance band for boundaries); the composition layer (union/cut/intersection interiors and boundaries, translate, rotate) is additionally proved on ARBITRARY operands (stub domains answering free symbolic booleans), which gives an inductive step for any nesting depth.",
+            "floats as reals; |parameters|<=16 for reject-claims of isclose tests; crossing points of operand boundaries and the band (0, 2e-4) outside the claim; shapely/trimesh excluded"),
+    "C12": ("DESIGN.md §2 C12",
+            "Bounded symbolic model checking: Points/Space operations run on tensors whose cells are distinct symbols and on symbolic slice bounds/masks/dims (forked); every resulting cell is proved equal (z3) to the cell an independent table model routes there, for all layouts of <=3 variables.",
+            "layouts of <=3 variables with dims in {1,2} (Space dims symbolic in [1,3]), batch shapes (3,) and (2,2), op sequences <=3; index tensors with distinct entries for assignment"),
+    "C13": ("DESIGN.md §2 C13",
+            "Bounded symbolic model checking: UserFunction/DomainUserFunction are executed with symbolic tokens as argument values and symbolic presence bits for every name (forked); routing by name, defaults, rejection, partial evaluation and non-interference are proved per path (z3) for every signature shape within the bound.",
+            "signatures of <=4 positional-or-keyword parameters, sequences of <=3 operations; *args/**kwargs/keyword-only rejected by the class and outside the claim"),
+    "C20": ("DESIGN.md §2 C20",
+            "Bounded symbolic model checking: the real _FourierLayer/FNO run on symbolic input fields, kernels and channel maps with an exact DFT over Q(sqrt2,sqrt3); shift-equivariance for every axis and shift, nodal agreement across resolutions for band-limited inputs and input-immutability are polynomial identities proved by z3.",
+            "grid sizes dividing 24, <=4-D, channels<=2; tanh uninterpreted; band limit K<N/2; space_res batch-norm variant outside; FFT kernels validated against torch.fft on every run"),
 }
 
 NOT_APPLICABLE = {
